@@ -1,6 +1,7 @@
 SPECIFICATION Spec
 CONSTANTS
-  Values = {1, 2, 3, 4}
+  Values = {0, 1, 2, 3}
+  NegMag = {1, 2}
   Gaps = {0, 1}
   MaxLen = 2
 INVARIANTS TypeOK RunIsRef ReadIsCurrent PeakToTrough Recovery OnePerPeak NoneIffMonotone MaxIsLargest ClassicMDD
